@@ -23,7 +23,7 @@ def write_arg(text, style):
     if style == 'sq':
         return None if "'" in text else "'%s'" % text
     if style == 'dq':
-        return None if any(c in '$`\\"' for c in text) else '"%s"' % text
+        return None if any(c in '$`\\' for c in text) else '"%s"' % text.replace('"', '\\"')
     if text == '':
         return "''"
     return ''.join(c if c.isalnum() else '\\' + c for c in text)
